@@ -431,6 +431,51 @@ def wire(ctx: Ctx, rule="R-C07-WIRE") -> None:
 
 
 # ----------------------------------------------------------------------------- FALSY
+TRANSPORT_FUNCS = (f"{C.RABBIT_CONS}.on_new_message", f"{C.REDIS_CONS}.__get_message_details", f"{C.INMEM_CONS}.consume", "repid.job.Job.__init__",
+                   "repid.job.Job._construct_routing_key", "repid.job.Job._construct_args", "repid.job.Job.enqueue", f"{C.REDIS_BROKER}.enqueue", f"{C.REDIS_BROKER}.requeue",
+                   f"{C.RABBIT_BROKER}.enqueue", f"{C.INMEM_BROKER}.enqueue", f"{C.INMEM_BROKER}.requeue", f"{C.PROCESSOR}.get_payload", f"{C.PROCESSOR}.process")
+
+
+def falsy_tests(ctx: Ctx, rule: str) -> None:
+    """On the transport path (job -> broker -> consumer -> processor) presence of a wire value is tested with `is None`, never by truthiness: the empty
+    payload (a job without arguments), falsy JSON arguments ({}, [], 0, False, "") and priority 0 are legal values that a truthiness test takes for 'missing'."""
+    def atoms(e):
+        if isinstance(e, ast.BoolOp):
+            for v in e.values:
+                yield from atoms(v)
+        elif isinstance(e, ast.UnaryOp) and isinstance(e.op, ast.Not):
+            yield from atoms(e.operand)
+        elif isinstance(e, ast.NamedExpr):
+            yield from atoms(e.value)
+        else:
+            yield e
+
+    probe = ast.parse("x = 1 if not payload or other is None else 2").body[0].value
+    ctx.require([unparse(a) for a in atoms(probe.test)] == ["payload", "other is None"], "truthiness-atom detector does not recognise its positive example")
+    n = 0
+    for q in TRANSPORT_FUNCS:
+        if q not in ctx.prog.functions:
+            continue
+        f = ctx.func(q)
+        tests = [x.test for x in ast.walk(f.node) if isinstance(x, (ast.If, ast.While, ast.IfExp, ast.Assert))] + [c for x in ast.walk(f.node) if isinstance(x, ast.comprehension) for c in x.ifs]
+        for t in tests:
+            for a in atoms(t):
+                if not isinstance(a, (ast.Name, ast.Attribute, ast.Subscript)):
+                    continue
+                txt = C.utext(f, a)
+                last = (dotted(a) or unparse(a)).split(".")[-1]
+                hot = last in ("payload", "raw_payload", "priority", "args", "data") or last.endswith("_payload") or "['payload']" in txt or txt.endswith(".priority")
+                if not hot:
+                    continue
+                n += 1
+                ctx.fail(rule, f, f"truthiness test of {unparse(a)} in `{unparse(t)[:60]}`",
+                         f"{f.short()} decides by the truthiness of `{unparse(a)}` (`{unparse(t)[:80]}`): an empty payload (job without arguments), falsy arguments ({{}}, [], 0, False, '') "
+                         "or priority 0 are legal values and are treated like a missing one - the message is dropped / dead-lettered or delivered with other content than enqueued",
+                         node=t, instance=f"{f.short()}: truthiness of {unparse(a)[:40]}")
+    if not n:
+        ctx.ok(rule, "no truthiness test of a payload / priority / arguments value on the transport path", f"{len(TRANSPORT_FUNCS)} functions scanned")
+
+
 def falsy(ctx: Ctx, rule="R-C07-FALSY") -> None:
     n = 0
     for q in (f"{C.RABBIT_CONS}.on_new_message", f"{C.REDIS_CONS}.__get_message_details", f"{C.INMEM_CONS}.consume", "repid.job.Job._construct_routing_key",
@@ -446,6 +491,7 @@ def falsy(ctx: Ctx, rule="R-C07-FALSY") -> None:
                 ctx.check(not hot, rule, f, f"`{unparse(b)[:70]}`", "no falsy-legal wire value on the left of `or`",
                           f"{f.short()}: `{unparse(b)[:90]}` replaces a legal falsy value of {hot} (priority 0 = LOW, empty payload) by the default: the consumer receives a "
                           "different value than was enqueued", node=b, instance=f"{f.short()}: {unparse(b)[:50]}")
+    falsy_tests(ctx, rule)
     pr = ctx.prog.cls("repid.data.priorities.PrioritiesT")
     vals = {k: v.value for k, v in pr.attrs.items() if isinstance(v, ast.Constant)}
     ctx.check(0 in vals.values(), rule, pr.qualname, "domain fact: a priority with value 0 exists", str(vals), "no falsy priority any more (R-C07-FALSY domain fact outdated)", instance="priority domain")
@@ -584,6 +630,10 @@ def alphabet(ctx: Ctx, rule="R-C07-ALPHABET") -> None:
     gm = u.functions["get_queue_marker"]
     ret = [r for r in ast.walk(gm.node) if isinstance(r, ast.Return)][0]
     ctx.check(unparse(ret.value) == "full_queue_name.split(':')[-1]", rule, gm, "queue marker = last part of the queue name", "split(':')[-1]", f"get_queue_marker returns {unparse(ret.value)}", instance="queue marker")
+    from .C11 import redis_prefix_terminator
+
+    redis_prefix_terminator(ctx, rule)  # a topic that is a prefix of another topic stays distinguishable in the Redis key encoding
+
 
 
 # ----------------------------------------------------------------------------- MARKER
